@@ -370,6 +370,30 @@ def check(case):
             case.equal(len(np.asarray(g)), n, 'gradient length vs n_parameters()', kind='shape')
             case.equal(len(L.compute_pointwise_ll(x.copy())), int(np.sum(L.n_observations())),
                        'pointwise length vs n_observations', kind='shape')
+        # reconfiguration by fix_parameters: fix one, then release it and fix another in ONE call (also across the
+        # mechanistic / error-parameter boundary), then release: counts, names and accepted lengths agree throughout
+        if not s['posterior'] and L.n_parameters() >= 3:
+            with case.clause('likelihood_refix'):
+                names0 = list(L.get_parameter_names())
+
+                def inv(what, fixed):
+                    nn = L.n_parameters()
+                    want_names = [nm for nm in names0 if nm not in fixed]
+                    case.equal(list(L.get_parameter_names()), want_names, '%s: names' % what)
+                    case.equal(nn, len(want_names), '%s: n_parameters()' % what)
+                    xx = np.array([0.8 + 0.07 * k for k in range(nn)])
+                    v = L(xx.copy())
+                    case.true(np.ndim(v) == 0 and np.isfinite(v), '%s: score %r at a vector of the reported length' % (what, v))
+                    sc2, g2 = L.evaluateS1(xx.copy())
+                    case.equal(len(np.asarray(g2)), nn, '%s: gradient length vs n_parameters()' % what, kind='shape')
+                    case.true(bool(np.all(np.isfinite(np.asarray(g2, dtype=float)))), '%s: non-finite gradient' % what)
+                a, b = names0[0], names0[-1]
+                L.fix_parameters({a: 0.9})
+                inv('after fixing %r' % a, [a])
+                L.fix_parameters({a: None, b: 0.7})
+                inv('after releasing %r and fixing %r in one call' % (a, b), [b])
+                L.fix_parameters({b: None})
+                inv('after releasing %r' % b, [])
         return
 
     if kind == 'hier':
@@ -389,6 +413,23 @@ def check(case):
             hier_invariants(case, H, s['n_ids'], 'hierarchical likelihood')
             P = chi.HierarchicalLogPosterior(H, llbuild.build_prior(s['prior']))
             hier_invariants(case, H, s['n_ids'], 'hierarchical posterior', posterior=P)
+        # likelihoods that were labelled by the first hierarchical likelihood are used again at other positions,
+        # together with a fresh one: either refused (ValueError) or every individual keeps a distinct ID
+        if s['default_names'] and s['ids'] is None and s['n_ids'] >= 2:
+            with case.clause('hierarchical_reused_likelihoods'):
+                fresh = llbuild.build_ll(s['lls'][-1])
+                try:
+                    H2 = chi.HierarchicalLogLikelihood(
+                        [fresh] + lls[:-1], hbuild.build_population(s, None),
+                        covariates=None if s['cov'] is None else np.array(s['cov'], dtype=float))
+                except ValueError:
+                    H2 = None
+                if H2 is not None:
+                    uid = list(H2.get_id(unique=True))
+                    case.equal(len(set(uid)), s['n_ids'], 'distinct IDs of a hierarchical likelihood built from re-used '
+                                                         'likelihoods: %r' % (uid,))
+                    named = H2.get_parameter_names(include_ids=True)
+                    case.equal(len(set(named)), len(named), 'names with IDs are pairwise distinct (re-used likelihoods)')
         return
 
     if kind == 'fpost':
